@@ -12,757 +12,736 @@ Definition show_fres (r : fres) : string :=
   end.
 Definition check (rs : list rune) : string := digest (show_fres (format_res rs)).
 Definition full (rs : list rune) : string := show_fres (format_res rs).
-Eval vm_compute in ("<<<M1676>>>" ++ check (runes_of_ascii "MetaData chars {
-    int8 Z9_,
-    float rootA `tab	here`,
-    T o `it's`,
-    roots int,
-    repeatCount MetaDataX,
-    float32 falsey `say ""hi""`,
-}
-
-packet msg_type {
-    repeat f32 o,
-    @tag(0)
-    char[] A,
-    repeat char[] tag `say ""hi""`,
-    repeat char[0] Z9_,
-    zchar[1] lengthOf,
-    i64 T,
-    match float as leftPad {
-        007 : len,
-        ""it's"" : len,
-        ""it's"" : float,
-        [
-            255, 00, 1, ""abc"", ""abc"",
-            """ ++ [28040; 24687]%N ++ runes_of_ascii """, ""x y"", """"
-        ] : _x,
-        """" : len,
-        ""\" ++ [233]%N ++ runes_of_ascii """ : i64_,
-        //	t
-    },
-    roots {
-        char[1] Header @lengthOf(x_y_z),
-        body u128,// `tick` ""quote"" 'q'
-        char[] float,
-        chars @lengthOf(x) `doc`,
-    },
-    crc `it's`,
-    @calculatedFrom(""" ++ [128512]%N ++ runes_of_ascii """)
-    BodyLength `" ++ [28040; 24687; 31867; 22411]%N ++ runes_of_ascii "`,
-}
-
-packet u128 {
-    lengthOf,
-    pack @lengthOf(u8x) `// not a comment`,
-    @leftPad(' ')
-    float {
-        match asx as charz {
-            [4294967296, 255, 42, """", ""1""] : u8x,
-            ""{,}"" : Foo,
-            42 : leftPad,
-            [255, 4294967296, ""a\""b"", ""it's""] : stringy,
-            3 : Header,
-        },
-        match o as Pad {
-            3 : i64_,
-        },
-        repeat string msg_type,
-        match packetx as lengthOf {
-            [""x y"", """"] : x_y_z,
-        },
-    },
-    i64 float,
-    repeat zchar[3] rootA `crlf
-    line`,
-    match msg_type as len {
-        ""CRC32"" : MetaDataX,
-    },
-    f32 A,
-    char[0123456789] chars `{ , }`,/// triple
-    @calculatedFrom(""a\""b"")
-    string string_ `" ++ [233]%N ++ runes_of_ascii "`,
-}")).
-Eval vm_compute in ("<<<M1510>>>" ++ check (runes_of_ascii "root packet// " ++ [27880; 37322]%N ++ runes_of_ascii "
-	  crc
-	{	@lengthOf( As
-
-) 
-@calculatedFrom(""\" ++ [233]%N ++ runes_of_ascii """
-    )zchar[
-
-    4294967296] 
-MetaDataX
-
-    `doc` , 	 /// triple
-	rootA@calculatedFrom( ""it's"" ),
-@tag(
-	65535 )
-@tag(// c
-  7 )@tag(  00 
-//
-  // c
-) 
-len @lengthOf( A )
-    `two words` ,  
-      // trailing space 
-
-// " ++ [128512]%N ++ runes_of_ascii " emoji
-
-	string  rootA
-	@lengthOf(	pack 
-    // trailing space 
-  	//	t
-),
-    // " ++ [128512]%N ++ runes_of_ascii " emoji
-	// trailing space 
-	repeat zchar 
-,
-	@calculatedFrom( ""abc""
-
-    )@leftPad( '\x00' 
-) @rightPad
-
-    ( )
-match 
-x_y_z
-
-as
-	Z9_ {  ""it's""
-:Logon//x
-    ,
-	""x y"":	Packet  ,""abc""
-	:
-
-trueish 4294967296  // @lengthOf(
-	: repeatCount
-
-""" ++ [128512]%N ++ runes_of_ascii """
-:	x_y_z
-} ,
-	char[10 	 // @lengthOf(
-	] stringy  `it's`  , @leftPad	('\x00'
-
-    ) 
-rootA @lengthOf(
-i64_  )
-,  }  MetaData falsey
-{ Packet repeatCount
-`tab	here`
-, } MetaData
-
-string_
-{ float64
-    roots `line1
-line2`,
-	char  As	//
-  `
-`	,	zchar[ 65535
-	]falsey
-`a\`
-	, A 
-T
-	, _x  metadata
-
-    , }	packet
-_x 	 // packet A { u8 x, }
-{ zchar[
-
-255	]
-string_
-
-    @lengthOf( 
-    //	t
-	// @lengthOf(
-	  u128
-
-    )  `{ , }`  ,	}root packet	Packet {
-repeat 	 // " ++ [128512]%N ++ runes_of_ascii " emoji
-    lengthOf ,  }
-
-")).
-Eval vm_compute in ("<<<M174>>>" ++ check (runes_of_ascii "
-root packet asx { leftPad
-    {u128 @calculatedFrom( ""1""
-) , //x
-}
-, lengthOf // packet A { u8 x, }
-@calculatedFrom( """ ++ [128512]%N ++ runes_of_ascii """ ) `a\`
-, i64 // `tick` ""quote"" 'q'
-Packet @lengthOf(  calculatedFrom ) , @calculatedFrom(
-""" ++ [233]%N ++ runes_of_ascii "t" ++ [233]%N ++ runes_of_ascii """ ) stringy	a1 `doc` // `tick` ""quote"" 'q'
-, @rightPad
-    (
-    // a // b
-    )
-    // c
-    a1
-    `a\`
-,  char
-Header @lengthOf(
-    x )`say ""hi""`, uint8x
-Z9_ `tab	here` ,  }
-options
-    {
-    calculatedFrom// packet A { u8 x, }
-= 0}	packet metadata {@leftPad ( '\x00'	) f32
-    pack
-//	t
-//
-, @tag( 65535 ) u32 uint8x @lengthOf( repeatCount) ``,MetaDataX	{ repeat options1 , match
-matchKey as len { """ ++ [128512]%N ++ runes_of_ascii """:
-    u8x	, 1 :
-zchar
-, /// triple
-[ ""a\\""
-    ,
-    ""x y"" ] : charz 0
+Eval vm_compute in ("<<<M41>>>" ++ check (runes_of_ascii "  root packet u{ match crc as
+leftPad { [ 00 ] : //
+o,  42
+    /// triple
     :
-    x_y_z
-    //
-    ,[// trailing space 
-4294967296// `tick` ""quote"" 'q'
-]: asx  , [/// triple
-""a\""b"" , ""\n"" , ""\" ++ [233]%N ++ runes_of_ascii """ ,10 ] : _x ,
-    }	, uint8  metadata
-@lengthOf(float
-) ,
-zchar[
-    255] i8i8 , },
-    }root  packet
-f32a
-    { }")).
-Eval vm_compute in ("<<<M1123>>>" ++ check (runes_of_ascii "// top
-options
-    // c0
-{
-    // c1
-uint8x
-    // c2
-=
-    // c3
-007
-    // c4
-;
-    // c5
-lengthOf
-    // c6
-=
-    // c7
-i8
-    // c8
-;
-    // c9
-}
-    // c10
-packet
-    // c11
-i64_
-    // c12
-{
-    // c13
-@calculatedFrom(
-    // c14
-""1""
-    // c15
-)
-    // c16
-@tag(
-    // c17
-3
-    // c18
-)
-    // c19
-@lengthOf(
-    // c20
-rootA
-    // c21
-)
-    // c22
-repeat
-    // c23
-int8
-    // c24
-Packet
-    // c25
-`u8 x,`
-    // c26
-,
-    // c27
-}
-    // c28
-root
-    // c29
-packet
-    // c30
-stringy
-    // c31
-{
-    // c32
-@rightPad
-    // c33
-(
-    // c34
-' '
-    // c35
-)
-    // c36
-repeat
-    // c37
-char[
-    // c38
-10
-    // c39
-]
-    // c40
-repeatCount
-    // c41
-,
-    // c42
-@tag(
-    // c43
-255
-    // c44
-)
-    // c45
-float64
-    // c46
-msg_type
-    // c47
-@calculatedFrom(
-    // c48
-""packet""
-    // c49
-)
-    // c50
-,
-    // c51
-}
-    // c52
-")).
-Eval vm_compute in ("<<<M230>>>" ++ check (runes_of_ascii "packet rootA{	match
-zchar as
-    // " ++ [128512]%N ++ runes_of_ascii " emoji
-    int {
-    [ ""it's""
-, ""1""]
-    :// c
-tag ,
-    } , char Packet @lengthOf( body ) , metadata @lengthOf( packetx ) ,@calculatedFrom( """ ++ [128512]%N ++ runes_of_ascii """	)match
-    repeatCount as f32a { """ ++ [28040; 24687]%N ++ runes_of_ascii """
-    :chars ,
-    }
-    ,@lengthOf(string_ )char[ 0
-    //
-    ] len @calculatedFrom(
-""abc"" )
-,
-    // `tick` ""quote"" 'q'
-    u8 uint8x@lengthOf( roots)  `say ""hi""`
-, int @calculatedFrom( ""a\""b"") ,match
-msg_type as i8i8 {// c
-""\" ++ [233]%N ++ runes_of_ascii """
-// " ++ [27880; 37322]%N ++ runes_of_ascii "
-// packet A { u8 x, }
-: Header , 1 : zchar,
-    [ ""\n""	]
-:	string_
-""\n"" :i8i8 0123456789 : Logon
-    [ 00 , 007 ,""1"" ,
-    //	t
-    ""it's""
-    , ""// no comment""
-    ,
-    0
-, ""a\\"" ,// packet A { u8 x, }
-007 ]
-    :BodyLength}
-, match rootA as // c
-chars  {
-7
-:
-    // @lengthOf(
-    Header }
-, A Foo `tab	here` ,
-}
-")).
-Eval vm_compute in ("<<<M4>>>" ++ check (runes_of_ascii "packet
-    // " ++ [128512]%N ++ runes_of_ascii " emoji
-    u128
-{ repeat char[
 // trailing space 
-// packet A { u8 x, }
-65535 ] float ,
-}
-options  { f32a
-= char[] ; } packet// trailing space 
-_x { @rightPad ('0' ) // packet A { u8 x, }
-@lengthOf(i8i8) @lengthOf(lengthOf
-)  repeat	Z9_//x
-`crlf
-line`, string_ {
-// `tick` ""quote"" 'q'
-// c
-zchar[7
-]x_y_z , Header x
-`line1
-line2` ,
-    }, //	t
-@leftPad ( )
-    match float
-as	x_y_z
-{ """ ++ [28040; 24687]%N ++ runes_of_ascii """ : metadata, 007 :
-    A,00 : falsey
-    , 0123456789  : Foo // trailing space 
-,0123456789
+//x
+crc [
+""a	b"" ,
+""CRC32"" , ""a\""b"" , ""\n""
+, 0
+, 255 ] : // packet A { u8 x, }
+zchar ,
+// " ++ [128512]%N ++ runes_of_ascii " emoji
+//
+} //	t
+,	string stringy
+    @lengthOf(matchKey ),
+    int ,@tag(
+1)repeat	zchar[ 4294967296] roots , @leftPad ( '\x00'	) x
+    //x
+    @lengthOf( crc ), } packet// c
+repeatCount { zchar[ 255]	f32a	@calculatedFrom(
+    ""x y"" )
+,@tag(
+    255) char[] asx
+@calculatedFrom(""" ++ [28040; 24687]%N ++ runes_of_ascii """
+    // " ++ [27880; 37322]%N ++ runes_of_ascii "
+    ) , leftPad{
+/// triple
+// a // b
+repeat int u8x ,
+i64
+trueish	@lengthOf(	i8i8 ) `" ++ [28040; 24687; 31867; 22411]%N ++ runes_of_ascii "`
+    // a // b
+    ,
+repeat
+int64 //	t
+pack
+    , } ,
+    match float as o { //
+65535
 :
-    zchar
-, } ,@calculatedFrom( ""1"" )
-@tag(
-/// triple
-/// triple
-0	) char[
-00 ] options1	, } packet Pad{
-u16
-body
-@lengthOf( stringy // c
-), } options { BodyLength ='0'msg_type =""a\""b"" ; }
+Pad ,[
+""" ++ [128512]%N ++ runes_of_ascii """ , """ ++ [28040; 24687]%N ++ runes_of_ascii """,
+    0123456789 ]
+//x
+// @lengthOf(
+:i8i8
+, 7 :
+asx 00: stringy } ,@calculatedFrom(
+""" ++ [233]%N ++ runes_of_ascii "t" ++ [233]%N ++ runes_of_ascii """ ) f32a
+// packet A { u8 x, }
+// trailing space 
+u , repeat msg_type `" ++ [233]%N ++ runes_of_ascii "` ,
+repeat zchar[
+42 ]crc
+    , uint64
+    // " ++ [27880; 37322]%N ++ runes_of_ascii "
+    lengthOf , repeat As``
+    ,
+zchar[ 007 ] tag `tab	here`  , }	root packet charz
+{
+    string msg_type , @calculatedFrom( """") repeat//	t
+string  tag `tab	here`
+    ,repeat calculatedFrom ,
+repeat Foo, uint64
+Foo@lengthOf( packetx) ,
+@rightPad  ( )	match	falsey as calculatedFrom { [ 0 , 10
+    , ""a\""b"" ] : metadata ,
+} , @calculatedFrom( ""\" ++ [233]%N ++ runes_of_ascii """ )
+    i64  As ``,
+    @lengthOf(
+rootA) u32 Logon // c
+@lengthOf(a1  ) , @calculatedFrom( """" ) @leftPad ( ' '
+    )
+    uint16
+i8i8
+@calculatedFrom( ""// no comment""
+) ,  } root packet// trailing space 
+uint8x {
+    repeat f32
+chars `tab	here` ,}
+MetaData calculatedFrom
+{
+//
+// `tick` ""quote"" 'q'
+metadata crc , }
 
 ")).
-Eval vm_compute in ("<<<M1404>>>" ++ check (runes_of_ascii "// `tick` ""quote"" 'q'
-packet As {
-    @rightPad('0')
-    stringy @lengthOf(calculatedFrom),
-    @tag(10)
-    string uint8x `
-    `,
-    match body as uint8x {
-        ""it's"" : rootA,
-        [00] : leftPad,
-        42 : MetaDataX,
-        ""a	b"" : calculatedFrom,
-        255 : trueish,
-    },
-    repeat i64 Logon `tab	here`,
+Eval vm_compute in ("<<<M382>>>" ++ check (runes_of_ascii "options {
+	StringPrefixLenType = u16;
+	ArrayPrefixLenType = u16;
 }
 
-options {
-    crc = '\x00';
+packet SampleBinary {
+    uint16 MsgType `" ++ [28040; 24687; 31867; 22411]%N ++ runes_of_ascii "`,
+    u16 BodyLenght @lengthOf(Body) `" ++ [28040; 24687; 20307; 38271; 24230]%N ++ runes_of_ascii "`,
+    match MsgType as Body {
+        1 : Logon,
+        2 : Logout,
+        3 : Heartbeat,
+        4 : RiskControlRequest,
+        5 : RiskControlResponse,
+    },
+        @calculatedFrom(""CRC32"")
+    u32 Ckecksum `" ++ [26657; 39564; 21644]%N ++ runes_of_ascii "`,
 }
 
-packet x {
-    @calculatedFrom(""a\\"")
-    @tag(42)
-    @leftPad('0')
-    match o as x_y_z {
-        // packet A { u8 x, }
-        [
-            0123456789, 007, 3, 007, """ ++ [128512]%N ++ runes_of_ascii """,
-            ""x y"", ""CRC32"", ""it's""
-        ] : Packet,
-        // c
-        [255, ""x y""] : x_y_z,
-    },
+packet Logon {
+     @leftPad('0')
+    char[10] UserName `" ++ [29992; 25143; 21517]%N ++ runes_of_ascii "`,
+    string Password `" ++ [23494; 30721]%N ++ runes_of_ascii "`,
+    uint64 ClientId `" ++ [23458; 25143; 31471]%N ++ runes_of_ascii "ID`,
+    u16 HeartbeatInterval `" ++ [24515; 36339; 38388; 38548]%N ++ runes_of_ascii "`,
+}
+
+packet Logout {
+      @rightPad('0')
+    char[10] UserName `" ++ [29992; 25143; 21517]%N ++ runes_of_ascii "`,
+    uint64 ClientId `" ++ [23458; 25143; 31471]%N ++ runes_of_ascii "ID`,
+}
+
+packet Heartbeat {
+}
+
+packet RiskControlRequest {
+    string UniqueOrderId `" ++ [21807; 19968; 35746; 21333; 21495]%N ++ runes_of_ascii "`,
+    char[16] ClOrdID `" ++ [23458; 25143; 35746; 21333; 21495]%N ++ runes_of_ascii "`,
+    char[3] MarketID `" ++ [24066; 22330]%N ++ runes_of_ascii "id`,
+    char[12] SecurityID `" ++ [35777; 21048; 20195; 30721]%N ++ runes_of_ascii "`,
+    char Side `" ++ [20080; 21334; 26041; 21521]%N ++ runes_of_ascii "`,
+    char OrderType `" ++ [35746; 21333; 31867; 22411]%N ++ runes_of_ascii "`,
+    u64 Price `" ++ [20215; 26684]%N ++ runes_of_ascii "`,
+    u32 Qty `" ++ [25968; 37327]%N ++ runes_of_ascii "`,
+    repeat string ExtraInfo `" ++ [38468; 21152; 20449; 24687]%N ++ runes_of_ascii "`,
+    repeat SubOrder {
+    		char[16] ClOrdID `" ++ [23376; 35746; 21333; 21495]%N ++ runes_of_ascii "`,
+    		u64 Price `" ++ [23376; 35746; 21333; 20215; 26684]%N ++ runes_of_ascii "`,
+    		u32 Qty `" ++ [23376; 35746; 21333; 25968; 37327]%N ++ runes_of_ascii "`,
+    	},
+}
+
+packet RiskControlResponse {
+    string UniqueOrderId `" ++ [21807; 19968; 35746; 21333; 21495]%N ++ runes_of_ascii "`,
+    i32 Status `" ++ [29366; 24577]%N ++ runes_of_ascii "`,
+    string Msg `" ++ [32467; 26524; 20449; 24687]%N ++ runes_of_ascii "`,
+    repeat Detail,
+}
+
+packet Detail {
+    string RuleName `" ++ [35268; 21017; 21517; 31216]%N ++ runes_of_ascii "`,
+    u16 Code `" ++ [21407; 22240; 20195; 30721]%N ++ runes_of_ascii "`,
 }")).
-Eval vm_compute in ("<<<M348>>>" ++ check (runes_of_ascii "root // c
-packet asx { @rightPad
-    (
-' ' ) @lengthOf(  int)@tag( 0 ) u64 uint8x @calculatedFrom( ""packet"")
-    ,  uint32 i64_ ,
-    // c
-    repeat options1 o,match f32a as /// triple
-falsey// " ++ [27880; 37322]%N ++ runes_of_ascii "
-{ 42 : stringy 10 :
-As, """" :
-    Packet ,
-} ,@calculatedFrom(""it's""
-) // " ++ [128512]%N ++ runes_of_ascii " emoji
-f64	a1 ,
-    @lengthOf(
-    tag )
-    match roots as MetaDataX
-{
-""" ++ [128512]%N ++ runes_of_ascii """:  f32a
-    , ""\n"" :
-    As [ 255 ]: A ,  }, a1 @calculatedFrom(	""abc"" )
-`` , @rightPad(
-)
-    @rightPad (
-    '\x00'
-)@calculatedFrom(
-""CRC32"" )body As , }  root packet packetx
-{
-//x
-//
-repeat lengthOf Logon `" ++ [28040; 24687; 31867; 22411]%N ++ runes_of_ascii "` , //	t
-}")).
-Eval vm_compute in ("<<<M1752>>>" ++ check (runes_of_ascii "// a // b
-packet stringy {
-    @tag(3)
+Eval vm_compute in ("<<<M8>>>" ++ check (runes_of_ascii "// @lengthOf(
+packet Pad { zchar[
+    0 ]Header @calculatedFrom(
+""a	b"" ) // " ++ [27880; 37322]%N ++ runes_of_ascii "
+`say ""hi""` , @calculatedFrom(
+    ""a\""b"" // a // b
+)  body @lengthOf( body// `tick` ""quote"" 'q'
+)`say ""hi""` , u16 stringy@lengthOf(
     // trailing space 
-    i64 len,
-    @calculatedFrom(""1"")
-    char[0] x @lengthOf(Foo),
-    @calculatedFrom("""")
-    body @lengthOf(calculatedFrom) `line1
-    line2`,
-    @calculatedFrom(""it's"")
-    // packet A { u8 x, }
-    match falsey as u8x {
-        [42, 1, 10, """ ++ [128512]%N ++ runes_of_ascii """] : Header,
-    },
-}
-
-MetaData stringy {
-    f32a u128 `{ , }`,
-    char[10] u128,
-    chars _x,
-    zchar[65535] falsey `{ , }`,
-    _x i64_,
-    int32 Packet `crlf
-    line`,
-}
-
-MetaData lengthOf {
-}")).
-Eval vm_compute in ("<<<M1574>>>" ++ check (runes_of_ascii "root packet int {
-    repeat float tag,
-    char[] roots,
-    @lengthOf(repeatCount)
-    @lengthOf(rootA)
-    uint16 o `tab	here`,
+    trueish ) , @lengthOf( rootA) f64 Foo `say ""hi""` // c
+,u16 Z9_ , x_y_z , }
+    MetaData metadata { uint64 x , trueish chars//
+,
+    asx lengthOf `u8 x,`  ,
+} options { body // a // b
+=	""packet"" } root
+    packet MetaDataX {zchar[
+42	]
+a1
+,Packet x_y_z // " ++ [27880; 37322]%N ++ runes_of_ascii "
+, u8 Foo
+    `u8 x,` , u64
+//	t
+/// triple
+tag, @tag( 1 //x
+)  string x_y_z @calculatedFrom( ""x y"" ) ,f32 Logon	, _x ,charz // a // b
+{
+    rootA metadata `crlf
+line`
+    , Header @calculatedFrom( ""\" ++ [233]%N ++ runes_of_ascii """ ) `` ,
+i64_`line1
+line2`
+    // @lengthOf(
+    , } ,@lengthOf(
+a1// `tick` ""quote"" 'q'
+) string
+As	`doc`
+    , @tag(
+1 ) match As
+    as	trueish
     //	t
-    i16 Pad `line1
-    line2`,
-    Pad {
-        match Pad as _x {
-            [00] : Z9_,
-        },
+    {
+    [ ""`tick`""
+    // trailing space 
+    ] :charz,  ""packet"": asx , 42  :
+packetx, [ ""a\\"" ] :
+u }
+,
+}
+/// triple
+")).
+Eval vm_compute in ("<<<M196>>>" ++ check (runes_of_ascii "root  packet u { match //x
+T as body// c
+{
+[
+""a\""b""
+    , 3 ] :
+stringy  ""a	b"" : charz // a // b
+,
+    10:  lengthOf// " ++ [128512]%N ++ runes_of_ascii " emoji
+, ""CRC32"" : falsey
+,
+    0123456789 : _x ,
+    } , body @lengthOf( i64_ )
+, u64 chars
+`u8 x,` ,T {i64_ string_,
+    u32 metadata , zchar[ 1
+]Z9_,}
+    // c
+    ,@calculatedFrom( ""a\\"" ) rootA // " ++ [128512]%N ++ runes_of_ascii " emoji
+x_y_z
+`u8 x,` ,
+    zchar[ 007 ]body @calculatedFrom(
+""\n""
+) ,
+    @leftPad (
+'0') @rightPad
+    ( '0' )
+@calculatedFrom( """ ++ [233]%N ++ runes_of_ascii "t" ++ [233]%N ++ runes_of_ascii """
+    )	repeat uint64 A	, repeat  u8x
+    { match
+o
+as
+x
+    {
+    10	:charz
+// " ++ [27880; 37322]%N ++ runes_of_ascii "
+// " ++ [27880; 37322]%N ++ runes_of_ascii "
+,""a	b"": matchKey
+, ""x y""
+:
+    trueish ,[ """ ++ [233]%N ++ runes_of_ascii "t" ++ [233]%N ++ runes_of_ascii """ ] : zchar,""1"" : charz // " ++ [27880; 37322]%N ++ runes_of_ascii "
+,
+[ ""a\""b"" ,
+""abc""
+, ""a\\"", ""abc"" ,
+// packet A { u8 x, }
+// " ++ [128512]%N ++ runes_of_ascii " emoji
+""""
+// packet A { u8 x, }
+/// triple
+] : u8x, } ,	},repeat falsey { rootA
+    tag ,
+    zchar[/// triple
+0 ] falsey ,  }
+    , charz a1 `{ , }`
+, } root
+packet /// triple
+Header{}
+")).
+Eval vm_compute in ("<<<M1336>>>" ++ check (runes_of_ascii "// top
+options // c0
+{ LittleEndian
+    // c2
+= true
+    // c4
+; StringPrefixLenType = // c7a
+  // c7b
+u16 // c8
+; // c9a
+  // c9b
+FixedStringPadChar = // c11a
+  // c11b
+' ' // c12
+; // c13
+} packet // c15
+Logon { // c17
+@leftPad // c18a
+  // c18b
+( '0'
+    // c20
+) char[ // c22
+10 ]
+    // c24
+tag7 // c25a
+  // c25b
+, }
+    // c27
+root // c28a
+  // c28b
+packet Ack
+    // c30
+{ // c31
+int32 Px // c33
+, // c34a
+  // c34b
+uint16 // c35
+count // c36a
+  // c36b
+, // c37
+string // c38
+Qty // c39
+, string
+    // c41
+OrderId
+    // c42
+, string Flags // c45a
+  // c45b
+, u8 x // c48a
+  // c48b
+, // c49a
+  // c49b
+match // c50
+x // c51
+as Body
+    // c53
+{ // c54
+[
+    // c55
+58 // c56
+, // c57a
+  // c57b
+169 ] // c59
+: // c60a
+  // c60b
+Logon
+    // c61
+, } // c63
+, } // c65a
+  // c65b
+")).
+Eval vm_compute in ("<<<M1693>>>" ++ check (runes_of_ascii "packet falsey {
+    // `tick` ""quote"" 'q'
+    repeat charz float `tab	here`,
+    char[] stringy,
+    Logon f32a,
+    char[] string_,
+    int16 _x ``,
+    match crc as stringy {
+        ""abc"" : Pad,
+        [
+            ""\n"", 10, 4294967296, 0123456789, ""abc"",
+            """ ++ [28040; 24687]%N ++ runes_of_ascii """
+        ] : i8i8,
+        10 : Header,
+        10 : calculatedFrom,
+        0123456789 : charz,
+        10 : repeatCount,
     },
-    repeat zchar calculatedFrom `a\`,
-    f64 charz,
-    Pad Foo,
-    @calculatedFrom(""" ++ [28040; 24687]%N ++ runes_of_ascii """)
-    charz @lengthOf(charz),
-    @lengthOf(rootA)
-    match o as body {
-        00 : x_y_z,
-        // " ++ [128512]%N ++ runes_of_ascii " emoji
-    },
-}")).
-Eval vm_compute in ("<<<M1433>>>" ++ check (runes_of_ascii "packet u {
-    @lengthOf(zchar)
-    match Header as len {
-        42 : x_y_z,
-    },
-    rootA `
-    `,
-    match u8x as pack {
-        [1, """"] : float,
-        ""abc"" : string_,
-        42 : i64_,
-        1 : zchar,
-    },
-    char[3] int,
-    match options1 as u128 {
-        [""`tick`""] : u,
-    },
+    leftPad @lengthOf(u8x),
+    @lengthOf(a1)
+    repeat x body,
+}
+
+MetaData string_ {
+    float64 f32a,
+    zchar[255] T,
+    u32 trueish,
+    BodyLength roots `two words`,
+}
+
+// " ++ [128512]%N ++ runes_of_ascii " emoji
+//	t
+packet stringy {
+    zchar[255] Foo,
+}
+
+MetaData leftPad {
+}//
+
+options {
+    x = true;
+    zchar = """"
+}//")).
+Eval vm_compute in ("<<<M23>>>" ++ check (runes_of_ascii "MetaData lengthOf
+{ }
+MetaData falsey { // " ++ [27880; 37322]%N ++ runes_of_ascii "
+falsey i64_
+`
+`	, zchar[ 255	] u `two words` ,	BodyLength int , matchKey	i8i8 `crlf
+line` ,uint8x	asx ,
+char[]options1 ,	}packet
+    asx  {	@lengthOf( o
+)@calculatedFrom(//
+""\n"" ) char[] lengthOf  `two words`// c
+,
+    BodyLength `" ++ [233]%N ++ runes_of_ascii "` ,repeat u8x len // " ++ [27880; 37322]%N ++ runes_of_ascii "
+`doc`
+, int
+@calculatedFrom(
+""a\\""
+    ) `line1
+line2`,@lengthOf( MetaDataX
+)
+Packet packetx
+    // `tick` ""quote"" 'q'
+    , a1 {
+    match Logon	as
+// " ++ [128512]%N ++ runes_of_ascii " emoji
+/// triple
+len {	4294967296
+:matchKey , [
+1  , 10 , 10 ,
+""{,}"" , """ ++ [233]%N ++ runes_of_ascii "t" ++ [233]%N ++ runes_of_ascii """ , 0123456789]: leftPad ,  3
+    :msg_type ,
+//	t
+//x
+1 : As
+,} ,
+    chars , }
+    ,}
+")).
+Eval vm_compute in ("<<<M1383>>>" ++ check (runes_of_ascii "// top
+packet // c0a
+  // c0b
+Sub // c1
+{
+    // c2
+u8 // c3a
+  // c3b
+a
+    // c4
+, // c5
+@calculatedFrom( ""CRC16"" )
+    // c8
+i32 // c9
+SubSum
+    // c10
+, } // c12
+root packet // c14a
+  // c14b
+Frame // c15
+{
+    // c16
+u16
+    // c17
+MsgType // c18a
+  // c18b
+, // c19
+u16 // c20a
+  // c20b
+BodyLen // c21a
+  // c21b
+@lengthOf( Body ) , // c25a
+  // c25b
+Sub
+    // c26
+Body // c27
+,
+    // c28
+string // c29a
+  // c29b
+note // c30a
+  // c30b
+,
+    // c31
+@calculatedFrom( // c32
+""CRC16"" ) i32 Checksum // c36a
+  // c36b
+, // c37a
+  // c37b
+u8 // c38
+tail , }
+    // c41
+")).
+Eval vm_compute in ("<<<M1760>>>" ++ check (runes_of_ascii "options {
+    leftPad = 0;
+    //
+    Logon = char// `tick` ""quote"" 'q'
+    i64_ = '\x00';
 }
 
 options {
-    len = i8;
-    zchar = true;
+    crc = i32;
+    matchKey = 255
+    leftPad = ' ';
+    metadata = 42;
+    packetx = 10
 }
 
-packet T {
-    char[42] asx @calculatedFrom(""CRC32""),
+root packet A {
+    @calculatedFrom(""x y"")
+    /// triple
+    zchar[00] f32a,
+    @tag(255)
+    zchar[0123456789] a1 @lengthOf(As) `" ++ [28040; 24687; 31867; 22411]%N ++ runes_of_ascii "`,
+    int16 body,// `tick` ""quote"" 'q'
+    uint64 x @calculatedFrom(""1"") `line1
+        line2`,
+    @lengthOf(Logon)
+    char[0] float @calculatedFrom(""abc""),
+}
+
+MetaData u128 {
 }")).
-Eval vm_compute in ("<<<M372>>>" ++ check (runes_of_ascii "// @lengthOf(
-MetaData leftPad { string	options1`say ""hi""` ,
-    //x
-    int16 metadata`" ++ [233]%N ++ runes_of_ascii "`,f32 i64_
-//	t
-// c
-, }  packet
-trueish { // c
-MetaDataX roots ,_x
-    a1 , match
-packetx as charz { 0
-: // c
-f32a ,
-} //
-, repeat body Logon , }	options { repeatCount=
-    int8
-charz // `tick` ""quote"" 'q'
-=	char[];  msg_type =""it's""	u
-=
-    007 Z9_
-    = uint32
-    //
-    }")).
-Eval vm_compute in ("<<<M194>>>" ++ check (runes_of_ascii "// `tick` ""quote"" 'q'
-options
-    //	t
-    { }  packet lengthOf // `tick` ""quote"" 'q'
-{  } packet
-// a // b
-// " ++ [27880; 37322]%N ++ runes_of_ascii "
-Foo {
-@tag(
-1
-) string
-uint8x ,_x { chars  , string uint8x , i64 _x //
-`it's`
-    , repeat uint8 As,	}
-, float32
-f32a , @leftPad( '\x00')
-    @calculatedFrom( """ ++ [28040; 24687]%N ++ runes_of_ascii """
-) // trailing space 
-uint8 Logon
+Eval vm_compute in ("<<<M301>>>" ++ check (runes_of_ascii "root packet A { repeat uint64 matchKey
+    , char[]
+    Packet , char[
+    007 ] calculatedFrom , }
+options{ Header =
+007 ;
+float =
+    true} packet chars { repeat
+chars ,@rightPad
+    ( '0' ) chars f32a
+    `line1
+line2`
+, int16
+u8x , @tag( 4294967296 ) @rightPad
+( )
+u64 packetx@calculatedFrom(""it's"" )
 ,
-    }")).
-Eval vm_compute in ("<<<M321>>>" ++ check (runes_of_ascii "
-options
-{ a1 = '\x00'
-As
-= ""{,}"" u8x
-=//x
-""a	b""
-    ; asx
-    = u64;
-o
-// @lengthOf(
-// c
-=0123456789 } packet Header
-{
-    //
-    @lengthOf(x // trailing space 
-)
-    // " ++ [27880; 37322]%N ++ runes_of_ascii "
-    repeat
-falsey { repeatCount
-    trueish
-`u8 x,` , } ,
-// `tick` ""quote"" 'q'
-// " ++ [128512]%N ++ runes_of_ascii " emoji
-zchar[
-65535 ] x
-    ,
-}")).
-Eval vm_compute in ("<<<M1322>>>" ++ check (runes_of_ascii "packet
-
-    P1
-    { u8
-
-    a 
-,
-} packet
-
-P2  { 
-P1
-	,
-    }  packet	P3 {	P2  ,
-
-P1	,}
-	packet  P4
-
-{ 
-repeat  P3
-	,
-
-P2,
-
-}root
-
-    packet
-    P5 {
-P4,
-
-    P3
-
-,
-
-    P1 , u8	K
-    ,match
-    K as Body {
-	4:P4 ,
-3
-
-: P3 ,
-	2 : P2 , 1
-: P1	,
-}	,  }")).
-Eval vm_compute in ("<<<M203>>>" ++ check (runes_of_ascii "root packet Pad {match //	t
-falsey as
-    A{
-255:// `tick` ""quote"" 'q'
-T, } , int64
-Header	`tab	here`
-, repeat i64_ `line1
-line2`, @tag( 7 )
-    float32	zchar
-    @calculatedFrom( ""\" ++ [233]%N ++ runes_of_ascii """
+@calculatedFrom( ""\n"" ) o@calculatedFrom(""a\""b"" ), Logon	@lengthOf( BodyLength
+    /// triple
     )
-//
-// @lengthOf(
-,u64 Header ,
+// a // b
+// packet A { u8 x, }
+,}options {
     }
 ")).
-Eval vm_compute in ("<<<M1729>>>" ++ check (runes_of_ascii "
-options 
-{
+Eval vm_compute in ("<<<M1834>>>" ++ check (runes_of_ascii "packet matchKey {
+    float32 float,
+    @calculatedFrom(""a\\"")
+    @rightPad('\x00')
+    i16 tag @calculatedFrom(""abc""),
+    repeat zchar[255] pack,
+    @lengthOf(Z9_)
+    tag,
+}// trailing space 
 
-Logon
-	=char[
-    00	];
-    zchar=
+root packet rootA {
+    repeat metadata {
+        Logon,
+    },
+    @tag(10)
+    @lengthOf(A)
+    @tag(007)
+    u32 options1,
+    match float as u {
+        0123456789 : u8x,
+    },
+}// " ++ [27880; 37322]%N ++ runes_of_ascii "
 
-    false
-Logon 
-= 
-i8
-;} options{  asx ='0' int
-
-=
-
-""\" ++ [233]%N ++ runes_of_ascii """
-    calculatedFrom
-
-=  '\x00'// packet A { u8 x, }
-    ; 	 // `tick` ""quote"" 'q'
+root packet lengthOf {
 }")).
-Eval vm_compute in ("<<<M1597>>>" ++ check (runes_of_ascii "packet x_y_z {
-    rootA @lengthOf(o) `two words`,
-}
+Eval vm_compute in ("<<<M1690>>>" ++ check (runes_of_ascii "packet
 
-MetaData f32a {
-    trueish x,
-}
+    a1 {
 
-MetaData body {
-    u128 pack,
-    f64 float,
-    char[65535] tag `" ++ [233]%N ++ runes_of_ascii "`,
-}// " ++ [128512]%N ++ runes_of_ascii " emoji")).
-Eval vm_compute in ("<<<M481>>>" ++ check (runes_of_ascii "packet uint8x
+    @leftPad
+    (
+) float 
+@lengthOf( 
+uint8x )
+,
+
+}packet	Logon
+	{ 
+char Logon
+@calculatedFrom(	""a\\""
+)
+    , T	stringy
+,  
+      //
+		// c
+  repeat uint8 stringy
+	`two words`	,
+} MetaData
+
+    charz  {
+
+u tag `
+` 
+,a1
+falsey  ,  //x
+Z9_
+    matchKey, f64 lengthOf `a\`// @lengthOf(
+	,  f32a roots
+
+``
+,
+
+float64  x_y_z // @lengthOf(
+,
+	}")).
+Eval vm_compute in ("<<<M323>>>" ++ check (runes_of_ascii "options{ }
+MetaData  string_ // `tick` ""quote"" 'q'
+{ u32
+matchKey `u8 x,`,
+    string  MetaDataX , uint8
+Logon, uint64 options1
+, char[ 00 ] len
+// `tick` ""quote"" 'q'
+// trailing space 
+`tab	here` , u8
+options1
+, }// a // b
+packet a1 { chars ,
+char[]
+i64_ @lengthOf(
+    // " ++ [27880; 37322]%N ++ runes_of_ascii "
+    stringy
+) ,char T,repeat i8 charz
+`a\`
+,
+}
+")).
+Eval vm_compute in ("<<<M1497>>>" ++ check (runes_of_ascii "
+
+  // top
+    packet	// c0
+
+Inner // c1
+	{ // c2
+	u8 	 // c3a
+	  // c3b
+    	a // c4
+	, 
+
+// c5
+	  }  // c6
+      root// c7
+	packet	// c8a
+  // c8b
+P// c9
+{// c10a
+    // c10b
+
+repeat  // c11a
+  // c11b
+	Inner items  // c13
+	, // c14
+u8 
+// c15
+    	x  ,	// c17a
+	// c17b
+  }	// c18
+")).
+Eval vm_compute in ("<<<M177>>>" ++ check (runes_of_ascii "root
+packet Logon {
+    @rightPad
+(// @lengthOf(
+'0' ) repeat
+    charz // " ++ [27880; 37322]%N ++ runes_of_ascii "
+{// " ++ [128512]%N ++ runes_of_ascii " emoji
+Z9_ `{ , }` , string string_ `say ""hi""` , repeat int8  rootA ,	match Foo	as
+pack {
+[ 42
+// c
+/// triple
+, 0 ] :u, ""a\""b"" : int
+,
+}
+// c
+// `tick` ""quote"" 'q'
+,
+} , }")).
+Eval vm_compute in ("<<<M1382>>>" ++ check (runes_of_ascii "packet Sub {
+    u8 a,
+    @calculatedFrom(""CRC16"") i32 SubSum,
+}
+root packet Frame {
+    u16 MsgType,
+    u16 BodyLen @lengthOf(Body),
+    Sub Body,
+    string note,
+    @calculatedFrom(""CRC16"") i32 Checksum,
+    u8 tail,
+}
+")).
+Eval vm_compute in ("<<<M10>>>" ++ check (runes_of_ascii "MetaData //	t
+x{
+    } packet rootA
+//x
+//	t
+{ i64	As
+//x
+// @lengthOf(
+@lengthOf(
+    A )
+`// not a comment` ,
+}
+    options { asx =	string ; i8i8 =zchar[
+0123456789 ];	Foo =10 ; As =true
+; }
+")).
+Eval vm_compute in ("<<<M1281>>>" ++ check (runes_of_ascii "// top
+root // c0a
+  // c0b
+packet P {
+    // c3
+u16
+    // c4
+a
+    // c5
+,
+    // c6
+u32 // c7a
+  // c7b
+Sum // c8
+@calculatedFrom( // c9a
+  // c9b
+""CRC32"" ) , } // c13
+")).
+Eval vm_compute in ("<<<M453>>>" ++ check (runes_of_ascii "packet uint8x
 { match pack
     as msg_type	{
     0123456789 :	float
 }
-,
+@lengthOf(
 } packet //	t
 a1
-    { } options options {packetx
+    { } options {packetx
     = '\x00'	; u128= ""a	b""  ; }
 ")).
-Eval vm_compute in ("<<<M1457>>>" ++ check (runes_of_ascii "packet A {
-    match k as n {
-        [
-            ""a"", ""bb"", ""c c"", ""d"", ""e"",
-            ""f"", ""g"", ""h"", ""i"", ""j""
-        ] : B,
-        2 : C,
-    },
+Eval vm_compute in ("<<<M1714>>>" ++ check (runes_of_ascii "MetaData chars {
+}
+
+options {
+    As = true;
+    As = false;
+    stringy = true
+}
+
+packet repeatCount {
+    string float @lengthOf(matchKey) `say ""hi""`,
 }")).
 Eval vm_compute in ("<<<M544>>>" ++ check (runes_of_ascii "packet uint8x
 { match pack
@@ -775,18 +754,18 @@ a1
     { } options {packetx
     = " ++ [65279]%N ++ runes_of_ascii " '\x00'	; u128= ""a	b""  ; }
 ")).
-Eval vm_compute in ("<<<M442>>>" ++ check (runes_of_ascii "packet uint8x
+Eval vm_compute in ("<<<M447>>>" ++ check (runes_of_ascii "packet uint8x
 { match pack
     as msg_type	{
-    0123456789 :	}
-float
+    0123456789 :	float
 ,
+}
 } packet //	t
 a1
     { } options {packetx
     = '\x00'	; u128= ""a	b""  ; }
 ")).
-Eval vm_compute in ("<<<M470>>>" ++ check (runes_of_ascii "packet uint8x
+Eval vm_compute in ("<<<M475>>>" ++ check (runes_of_ascii "packet uint8x
 { match pack
     as msg_type	{
     0123456789 :	float
@@ -794,11 +773,11 @@ Eval vm_compute in ("<<<M470>>>" ++ check (runes_of_ascii "packet uint8x
 ,
 } packet //	t
 a1
-     } options {packetx
+    {  options {packetx
     = '\x00'	; u128= ""a	b""  ; }
 ")).
-Eval vm_compute in ("<<<M667>>>" ++ check (runes_of_ascii "// @lengthOf(
-packet i8i8 { u128 o char }
+Eval vm_compute in ("<<<M668>>>" ++ check (runes_of_ascii "// @len'1'gthOf(
+packet i8i8 { u128 o , }
 options { MetaDataX = true;
     BodyLength =""packet"" x_y_z= 007
 crc //x
@@ -813,206 +792,243 @@ crc //x
 = ""abc"" ;
     msg_type =
 i16 }")).
-Eval vm_compute in ("<<<M704>>>" ++ check (runes_of_ascii "// @lengthOf(
-packet i8i8 { u128 o , }
-options { MetaDataX = true;
-    BodyLength =""packet"" x_y_z 007
-crc //x
-= ""abc"" ;
-    msg_type =
-i16 }")).
-Eval vm_compute in ("<<<M1599>>>" ++ check (runes_of_ascii "packet _x {
-    //
-    repeat zchar[1] metadata,
-    @leftPad(' ')
-    @lengthOf(T)
-    @lengthOf(Z9_)
-    char[] As,
-    string f32a,
+Eval vm_compute in ("<<<M1921>>>" ++ check (runes_of_ascii "packet A {
+    u16 len @lengthOf(body) `a
+        
+        b`,
+    u32 crc @calculatedFrom(""CRC32"") `a
+        
+        b`,
+    string body,
 }")).
-Eval vm_compute in ("<<<M1598>>>" ++ check (runes_of_ascii "packet A {
-    match k as n {
-        [
-            1, 22, 4, 5, 7,
-            ""c c"", ""f""
-        ] : B,
-        2 : C,
+Eval vm_compute in ("<<<M1616>>>" ++ check (runes_of_ascii "packet
+
+A
+    {
+match 
+k as
+	n{
+[1 ,	22  ,""c c""
+
+    ,	4 
+,
+
+5, ""f"",
+
+    7  ,  8	,""i""
+, 
+10 ,  11]
+    :B
+
+    2 : 
+C }
+	,
+}
+
+")).
+Eval vm_compute in ("<<<M304>>>" ++ check (runes_of_ascii "packet
+    // " ++ [27880; 37322]%N ++ runes_of_ascii "
+    Logon {
+repeatCount @lengthOf( roots ) , @tag(0) repeat zchar[007] crc , rootA a1 `{ , }` , string_ `" ++ [233]%N ++ runes_of_ascii "`
+,  }
+")).
+Eval vm_compute in ("<<<M1654>>>" ++ check (runes_of_ascii "packet B {
+    u8 a,
+}
+
+root packet P {
+    u8 K,
+    u64 L @lengthOf(Body),
+    match K as Body {
+        1 : B,
     },
 }")).
-Eval vm_compute in ("<<<M1189>>>" ++ check (runes_of_ascii "MetaData leftPad { chars MetaDataX , } packet repeatCount { char[ 255 ] uint8x `" ++ [233]%N ++ runes_of_ascii "` , } MetaData pack { As Foo , } // c
-")).
-Eval vm_compute in ("<<<M1169>>>" ++ check (runes_of_ascii "MetaData leftPad { chars MetaDataX , } packet repeatCount { char[ 255 ] uint8x // c
-`" ++ [233]%N ++ runes_of_ascii "` , } MetaData pack { As Foo , }")).
-Eval vm_compute in ("<<<M1717>>>" ++ check (runes_of_ascii "
-options
-{
-lengthOf
-=3
-trueish
-    // packet A { u8 x, }
-// trailing space 
-=
-true;
-calculatedFrom
-	=
-007;}
-")).
-Eval vm_compute in ("<<<M25>>>" ++ check (runes_of_ascii "packet stringy	{
-    } // packet A { u8 x, }
+Eval vm_compute in ("<<<M1157>>>" ++ check (runes_of_ascii "MetaData leftPad { chars MetaDataX , } packet // c
+repeatCount { char[ 255 ] uint8x `" ++ [233]%N ++ runes_of_ascii "` , } MetaData pack { As Foo , }")).
+Eval vm_compute in ("<<<M1660>>>" ++ check (runes_of_ascii "
 packet
-    u128
-    { u16 len@lengthOf( u128)	,
-    //x
-    }
+B
+	{ 
+u8 a
+    ,
+    string
+
+s	,
+}
+    root
+packet
+
+    P
+{
+u16
+L  @lengthOf(B 
+)  ,	B,
+
+u8
+
+    t ,
+}
 ")).
-Eval vm_compute in ("<<<M352>>>" ++ check (runes_of_ascii "packet _x {
-} // trailing space 
-options
-    { repeatCount
-    =42 //x
-;Pad = true;
-x_y_z =
-65535 ;}
+Eval vm_compute in ("<<<M290>>>" ++ check (runes_of_ascii "options {
+    /// triple
+    asx // " ++ [27880; 37322]%N ++ runes_of_ascii "
+= 3 } MetaData T
+{  f32/// triple
+Pad `u8 x,` , } // `tick` ""quote"" 'q'")).
+Eval vm_compute in ("<<<M909>>>" ++ check (runes_of_ascii "packet A {
+  match k as n {
+    [1, ""bb"", 007, ""d"", 5, ""f"", 7, ""h"", 9, ""j"", 11, ""l""] : B
+    2 : C
+  },
+}")).
+Eval vm_compute in ("<<<M484>>>" ++ check (runes_of_ascii "packet uint8x
+{ match pack
+    as msg_type	{
+    0123456789 :	float
+}
+,
+} packet //	t
+a1
+    { }")).
+Eval vm_compute in ("<<<M1267>>>" ++ check (runes_of_ascii "packet B {
+    u8 a,
+    string s,
+}
+root packet P {
+    u16 L @lengthOf(B),
+    B,
+    u8 t,
+}
 ")).
-Eval vm_compute in ("<<<M1494>>>" ++ check (runes_of_ascii "packet A {
-    u32 crc @calculatedFrom(""\
-        ""),
-    @calculatedFrom(""\
-        "")
+Eval vm_compute in ("<<<M635>>>" ++ check (runes_of_ascii "
+packet
+    asx {'1'match u128 as lengthOf
+{
+//	t
+// `tick` ""quote"" 'q'
+255 : x ,
+    } ,	}")).
+Eval vm_compute in ("<<<M637>>>" ++ check (runes_of_ascii "
+~packet
+    asx {match u128 as lengthOf
+{
+//	t
+// `tick` ""quote"" 'q'
+255 : x ,
+    } ,	}")).
+Eval vm_compute in ("<<<M587>>>" ++ check (runes_of_ascii "
+packet
+    asx {match u128 as lengthOf
+
+//	t
+// `tick` ""quote"" 'q'
+255 : x ,
+    } ,	}")).
+Eval vm_compute in ("<<<M621>>>" ++ check (runes_of_ascii "
+packet
+    asx {match u128 as lengthOf
+{
+//	t
+// `tick` ""quote"" 'q'
+255 : x ,
+    }")).
+Eval vm_compute in ("<<<M852>>>" ++ check (runes_of_ascii "packet A {
+  match k as n {
+    [1, 22, 007, 4, 5, 66, 7, 8] : B,
+    2 : C
+  },
+}")).
+Eval vm_compute in ("<<<M1904>>>" ++ check (runes_of_ascii "packet A {
+    // a
+    @tag(1)
+    u8 x,// b
+    // c
+    @tag(2)
     u8 y,
 }")).
-Eval vm_compute in ("<<<M1254>>>" ++ check (runes_of_ascii "
+Eval vm_compute in ("<<<M459>>>" ++ check (runes_of_ascii "packet uint8x
+{ match pack
+    as msg_type	{
+    0123456789 :	float
+}
+,")).
+Eval vm_compute in ("<<<M1856>>>" ++ check (runes_of_ascii "
 packet
-    Inner {
-    u8 a
 
+    A
+	{ 
+B b `a
+b`
 ,
-} root
-	packet P
+B`a
+b` ,
 
-    {  repeat
-    Inner items,	u8 
-x	, } ")).
-Eval vm_compute in ("<<<M226>>>" ++ check (runes_of_ascii "// a // b
-packet Pad {
-    char[] // packet A { u8 x, }
-Z9_ @lengthOf( Pad
-) `{ , }` , } 	 ")).
-Eval vm_compute in ("<<<M69>>>" ++ check (runes_of_ascii "//
-packet metadata
-{ }	MetaData chars
-//x
-//	t
-{
-    char[ 42	] leftPad `crlf
-line`  ,
-}")).
-Eval vm_compute in ("<<<M850>>>" ++ check (runes_of_ascii "packet A {
-  match k as n {
-    [""a"", ""bb"", 007, ""d"", ""e"", 66, ""g""] : B
-    2 : C
-  },
-}")).
-Eval vm_compute in ("<<<M1382>>>" ++ check (runes_of_ascii "packet  A	{
-
-match
-k as
-n
-{ [
-	1
-, 22
-	, 007
-
-,4	]  :
-
-    B
-
-    2
-:  C}, }
-
-")).
-Eval vm_compute in ("<<<M748>>>" ++ check (runes_of_ascii "options match @lengthOf( options char[] zchar[ MetaData f32 f64 u16 ""{,}"" `doc` (")).
-Eval vm_compute in ("<<<M269>>>" ++ check (runes_of_ascii "options
-{ Z9_ ='\x00'  } packet trueish
-{ // " ++ [128512]%N ++ runes_of_ascii " emoji
-u16 calculatedFrom
-, }")).
-Eval vm_compute in ("<<<M67>>>" ++ check (runes_of_ascii "options { charz =""1"" _x= """ ++ [128512]%N ++ runes_of_ascii """ u = string ; stringy=
-""" ++ [28040; 24687]%N ++ runes_of_ascii """ }
-// @lengthOf(
-")).
-Eval vm_compute in ("<<<M809>>>" ++ check (runes_of_ascii "packet A {
-  match k as n {
-    [1, 22, ""c c"", 4] : B
-    2 : C
-  },
-}")).
-Eval vm_compute in ("<<<M653>>>" ++ check (runes_of_ascii "// @lengthOf(
-packet i8i8 { u128 o , }
-options { MetaDataX = true")).
-Eval vm_compute in ("<<<M204>>>" ++ check (runes_of_ascii "  options {// " ++ [128512]%N ++ runes_of_ascii " emoji
-Packet =// `tick` ""quote"" 'q'
-char[3 ]}")).
-Eval vm_compute in ("<<<M1926>>>" ++ check (runes_of_ascii "
-
-  root	packet
-P  {
 repeat
 
-    char 
-cs 
-,
-u8 x
-	, }")).
-Eval vm_compute in ("<<<M1203>>>" ++ check (runes_of_ascii "packet body { // c
-i32 f32a `{ , }` , } options { }")).
-Eval vm_compute in ("<<<M1257>>>" ++ check (runes_of_ascii "
-root	packet
-
-P	{
-	hdr {u8  a,
-}  ,u8 
-x , 
-}
+B
+	bs
+`a
+b` , }
 ")).
-Eval vm_compute in ("<<<M965>>>" ++ check (runes_of_ascii "options {
-    a = ""x\
-y"";
-    b = ""x\
-y""
+Eval vm_compute in ("<<<M788>>>" ++ check (runes_of_ascii "packet A {
+  match k as n {
+    [1, 22, 007] : B
+    2 : C
+  },
 }")).
-Eval vm_compute in ("<<<M1096>>>" ++ check (runes_of_ascii "packet A { u8 x,// a
-
-
-// b
-
- u8 y, }")).
-Eval vm_compute in ("<<<M105>>>" ++ check (runes_of_ascii "// " ++ [128512]%N ++ runes_of_ascii " emoji
-MetaData crc
-    {  }")).
-Eval vm_compute in ("<<<M1008>>>" ++ check (runes_of_ascii "packet A {
- u8 x `d" ++ [8202]%N ++ runes_of_ascii "`, // c" ++ [8202]%N ++ runes_of_ascii "
+Eval vm_compute in ("<<<M779>>>" ++ check (runes_of_ascii "packet A {
+  match k as n {
+    [1, 22] : B
+    2 : C
+  },
 }")).
-Eval vm_compute in ("<<<M1681>>>" ++ check (runes_of_ascii "
-packet 
-x 	 // c
-  {
-}
+Eval vm_compute in ("<<<M1670>>>" ++ check (runes_of_ascii "packet calculatedFrom {
+    repeat string Foo `{ , }`,
+}")).
+Eval vm_compute in ("<<<M1202>>>" ++ check (runes_of_ascii "packet body
+// c
+{ i32 f32a `{ , }` , } options { }")).
+Eval vm_compute in ("<<<M1567>>>" ++ check (runes_of_ascii "MetaData M {
+    u8 x `
+    `,
+    T t `
+    `,
+}")).
+Eval vm_compute in ("<<<M1221>>>" ++ check (runes_of_ascii "// top
+packet // c0
+x // c1
+{ // c2
+} // c3
+")).
+Eval vm_compute in ("<<<M752>>>" ++ check (runes_of_ascii "repeatCount u32 as false uint64 0 @tag(")).
+Eval vm_compute in ("<<<M197>>>" ++ check (runes_of_ascii "
+options {u8x
+=
+    ""packet"" ;	}
+")).
+Eval vm_compute in ("<<<M1579>>>" ++ check (runes_of_ascii "packet A {
+    // a
+    u8 x,
+}")).
+Eval vm_compute in ("<<<M941>>>" ++ check (runes_of_ascii "packet A {
+    u8 x `a
 
-")).
-Eval vm_compute in ("<<<M1104>>>" ++ check (runes_of_ascii "
+b`,
+}")).
+Eval vm_compute in ("<<<M1903>>>" ++ check (runes_of_ascii "options {
+    // a // b
+}")).
+Eval vm_compute in ("<<<M1107>>>" ++ check (runes_of_ascii "MetaData tag // c
+{ }")).
+Eval vm_compute in ("<<<M1133>>>" ++ check (runes_of_ascii "MetaData u
 // c
-MetaData tag { }")).
-Eval vm_compute in ("<<<M1129>>>" ++ check (runes_of_ascii "
-// c
-MetaData u { }")).
-Eval vm_compute in ("<<<M991>>>" ++ check (runes_of_ascii "packet A {
-}
-// c" ++ [133]%N)).
-Eval vm_compute in ("<<<M1233>>>" ++ check (runes_of_ascii "packet x { }
-// c
-")).
-Eval vm_compute in ("<<<M1774>>>" ++ check (runes_of_ascii "// trailing space")).
-Eval vm_compute in ("<<<M1763>>>" ++ check (runes_of_ascii "// " ++ [128512]%N ++ runes_of_ascii " emoji
-")).
-Eval vm_compute in ("<<<M1035>>>" ++ check (runes_of_ascii "// c" ++ [12]%N)).
+{ }")).
+Eval vm_compute in ("<<<M1027>>>" ++ check (runes_of_ascii "// c" ++ [8287]%N ++ runes_of_ascii "
+packet A {
+}")).
+Eval vm_compute in ("<<<M1014>>>" ++ check (runes_of_ascii "packet A {
+}// c" ++ [8233]%N)).
+Eval vm_compute in ("<<<M762>>>" ++ check (runes_of_ascii "w|lL|]kVFeknSP9")).
+Eval vm_compute in ("<<<M561>>>" ++ check (runes_of_ascii "
+packet")).
+Eval vm_compute in ("<<<M56>>>" ++ check (runes_of_ascii " 	 ")).
